@@ -78,11 +78,12 @@ pub fn expected(c: &OpCase, o: &Outcome) -> Vec<(&'static str, Vec<Vec<i128>>)> 
         let n = c.n();
         let n2 = c.n2();
         let gap = n / n2;
-        let rs = c.size[0] as usize;
         let mut outs = vec![];
         const LABELS: [&str; 16] = ["p0", "p1", "p2", "p3", "p4", "p5", "p6", "p7", "p8", "p9", "p10", "p11", "p12", "p13", "p14", "p15"];
         for i in 0..gap {
             let mut limbs = vec![];
+            // (every part has its own limb count)
+            let rs = o.slot(LABELS[i]).size;
             for j in 0..rs {
                 if j < a.len() {
                     limbs.push((0..n2).map(|t| a[j][t * gap + i]).collect());
